@@ -336,6 +336,39 @@ def rule_c(ctx):
             '_start_tasks is called from %s' % sorted(callers))
 
 
+def rule_e(ctx):
+    """The response of a request-response reaches the wire: the responder is wired to the handler's future."""
+    rep = ctx.report
+    slots = ctx.slots
+    f = slots.RSocketBase.methods['handle_request_response']
+    ok = True
+    detail = ''
+    n = 0
+    m = model(ctx)
+    for p in ctx.paths(f, slots.RSocketServer, inline_depth=3, no_inline={'assert_stream_id_available',
+                                                                       'register_stream'}):
+        if p.outcome != 'return':
+            continue
+        n += 1
+        news = [e for e in p.events if e.kind == 'new' and e.data['cls'].name == 'RequestResponseResponder']
+        regs = [e for e in p.events if e.kind == 'call' and e.data.get('name') == 'add_done_callback']
+        if len(news) != 1 or not regs:
+            ok, detail = False, 'the handler\'s response future gets no done-callback: the response is never sent'
+            continue
+        fut = news[0].data['args'][1].term if len(news[0].data.get('args') or []) > 1 else None
+        cb = regs[0].data['args'][0].term if regs[0].data.get('args') else None
+        if strip_epoch(regs[0].data['recv'].term) != strip_epoch(fut):
+            ok, detail = False, 'the done-callback is registered on something other than the handler\'s response future'
+        elif not (cb and cb[0] == 'boundmethod' and cb[1] == news[0].data['value'].term):
+            ok, detail = False, 'the done-callback is not a method of the responder registered for this stream'
+        else:
+            h = [x for x in m.handlers if x.name == 'RequestResponseResponder']
+            if not h or cb[2] not in m._registered_callbacks(h[0]):
+                ok, detail = False, 'the registered callback %s is not the responder\'s completion callback' % cb[2]
+    rep.add('C01.d', 'RSocketBase.handle_request_response / response future wired to the responder', f,
+            ok and n > 0, detail or 'response_future.add_done_callback(responder.<send callback>) on all %d paths' % n)
+
+
 def rule_d(ctx):
     from .c05 import rule_a as c05a
     from .c03 import rule_c as c03c, rule_f as c03f
@@ -344,4 +377,4 @@ def rule_d(ctx):
     c03f(ctx)
 
 
-RULES = [('C01.a', rule_a), ('C01.b', rule_b), ('C01.c', rule_c), ('C05.a+C03.c+C03.f', rule_d)]
+RULES = [('C01.a', rule_a), ('C01.b', rule_b), ('C01.c', rule_c), ('C01.d', rule_e), ('C05.a+C03.c+C03.f', rule_d)]
